@@ -60,6 +60,7 @@ type Result struct {
 	SetupErr string  `json:"setuperr,omitempty"`
 	Stderr   string  `json:"stderr,omitempty"`
 	Miss     int     `json:"miss,omitempty"`
+	Released []string `json:"released,omitempty"` // raw ids in release order (probes and gates)
 	Raw      []string `json:"raw,omitempty"`
 }
 
@@ -205,7 +206,7 @@ func Run(job Job, scratch string) (res Result) {
 	switch {
 	case len(job.Script) > 0:
 		sc = &probe.ScriptChooser{Order: job.Script}
-		ch = keyed{sc}
+		ch = sc
 	case job.Seed > 0:
 		ch = &probe.RandChooser{S: job.Seed*2654435761 + 88172645463325252}
 	default:
@@ -221,6 +222,9 @@ func Run(job Job, scratch string) (res Result) {
 		res.Miss = sc.Miss
 	}
 	for _, ev := range sink.Log() {
+		if ev.E == "E" || ev.E == "GE" {
+			res.Released = append(res.Released, ev.ID)
+		}
 		switch ev.E {
 		case "B", "E":
 			x := parseProbe(ev.ID)
@@ -257,13 +261,3 @@ func Run(job Job, scratch string) (res Result) {
 	return
 }
 
-// keyed adapts a ScriptChooser whose order is given as probe keys to the raw pending ids.
-type keyed struct{ sc *probe.ScriptChooser }
-
-func (k keyed) Choose(step int, pending []string) int {
-	keys := make([]string, len(pending))
-	for i, id := range pending {
-		keys[i] = parseProbe(id).Key()
-	}
-	return k.sc.Choose(step, keys)
-}
